@@ -89,6 +89,10 @@ def run_corpus(rep, prop):
             else:
                 wv = wireview.WireView(o)
                 vs = {"C04": wv.sender_oracle, "C17": wv.reset_oracle, "C07": lambda: wv.ending_oracle()[0]}[prop]()
+                for v in vs:
+                    kc = known_class(prop, v)
+                    if kc:
+                        rep.known(kc)
                 vs = [v for v in vs if not known_class(prop, v)]
             if vs or panicked:
                 bad += 1
